@@ -19,6 +19,7 @@ func nondetBool() bool              { return verifNext()&1 != 0 }
 func nondetIntRange(lo, hi int) int { v := verifNext(); n := uint64(hi-lo) + 1; return lo + int((v-uint64(lo))%n) }
 func nondetBytes(n int) []byte      { b := make([]byte, n); for i := range b { b[i] = nondetByte() }; return b }
 func nondetString(n int) string     { return string(nondetBytes(n)) }
+func nondetOpaqueBytes(max int) []byte { return make([]byte, int(verifNext()%uint64(max+1))) }
 func vassume(c bool)                { if !c { verifAssumeFailed() } }
 func vassert(label string, c bool)  { if !c { verifAssertFailed(label) } }
 func vcover(label string)           {}
